@@ -293,7 +293,7 @@ func runCheck(prop, tier string, seed int) int {
 				retry = append(retry, &UnitResult{Key: u.Key, Obls: again, decls: u.decls})
 			}
 		}
-		if len(retry) > 0 {
+		if len(retry) > 0 && os.Getenv("VERIF_NO_RETRY") == "" { // the must-fail corpus skips the second chance: its mutants are expected to fail
 			dischargeAll(retry, smtDir, secs*4, 4)
 		}
 	}
